@@ -15,9 +15,11 @@ fn main() {
         .to_string();
     println!("cargo:rerun-if-changed={}/src/lang", repo);
     println!("cargo:rerun-if-changed=Cargo.toml");
+    let mut phrases_out = String::from("pub const SRC_PHRASES: [(&str, &[&str]); 7] = [\n");
     let mut out = String::from("pub const SRC_DICT: [(&str, &[&str]); 7] = [\n");
     for code in ["de", "en", "es", "fr", "it", "nl", "pt"] {
         let mut words: Vec<String> = Vec::new();
+        let mut phrases: Vec<String> = Vec::new();
         let dir = PathBuf::from(&repo).join("src/lang").join(code);
         let mut files: Vec<PathBuf> = fs::read_dir(&dir).map(|d| d.filter_map(|e| e.ok().map(|e| e.path())).collect()).unwrap_or_default();
         files.sort();
@@ -36,6 +38,11 @@ fn main() {
                         if (2..=24).contains(&n) && lit.chars().all(|c| c.is_alphabetic()) {
                             words.push(lit.to_lowercase());
                         }
+                        // two- or three-word expressions (multi-word vocabulary entries)
+                        let parts: Vec<&str> = lit.split(' ').collect();
+                        if (2..=3).contains(&parts.len()) && n <= 40 && parts.iter().all(|w| !w.is_empty() && w.chars().all(|c| c.is_alphabetic() || c == '\'')) {
+                            phrases.push(lit.to_lowercase());
+                        }
                         rest = &after[j + 1..];
                     }
                     None => break,
@@ -45,8 +52,13 @@ fn main() {
         words.sort();
         words.dedup();
         out.push_str(&format!("    ({:?}, &{:?}),\n", code, words));
+        phrases.sort();
+        phrases.dedup();
+        phrases_out.push_str(&format!("    ({:?}, &{:?}),\n", code, phrases));
     }
     out.push_str("];\n");
+    phrases_out.push_str("];\n");
+    out.push_str(&phrases_out);
     let dest = PathBuf::from(env::var("OUT_DIR").unwrap()).join("srcdict.rs");
     fs::write(dest, out).unwrap();
 }
